@@ -301,6 +301,13 @@ def closure_run_guards(prog, ckey):
                     out.append(raw_guard)
                 if pol_ and a0_.get("k") in ("move", "copy") and not a0_["place"]["p"]:
                     defs_ = cpb.defs.get(a0_["place"]["l"], [])
+                    # the flag kept in a named local (`let wanted = a && b; … wanted.then(..)`): the temporary handed to `then` is a copy of it
+                    for _hop in range(4):
+                        if len(defs_) == 1 and defs_[0][2] == "assign" and not defs_[0][3]["place"]["p"] and defs_[0][3]["rv"]["k"] == "use" \
+                                and defs_[0][3]["rv"]["op"].get("k") in ("move", "copy") and not defs_[0][3]["rv"]["op"]["place"]["p"]:
+                            defs_ = cpb.defs.get(defs_[0][3]["rv"]["op"]["place"]["l"], [])
+                        else:
+                            break
                     live_ = []
                     for d_ in defs_:
                         if d_[2] == "assign" and not d_[3]["place"]["p"] and d_[3]["rv"]["k"] == "use" and d_[3]["rv"]["op"].get("k") == "const" \
